@@ -195,7 +195,14 @@ def _load_plugins():
                 ANCHORS.append(a)
 
 
-_load_plugins()
+_PLUGINS_LOADED = False
+
+
+def ensure_plugins():
+    global _PLUGINS_LOADED
+    if not _PLUGINS_LOADED:
+        _PLUGINS_LOADED = True
+        _load_plugins()
 
 
 def default_imports():
@@ -204,6 +211,7 @@ def default_imports():
 
 
 def generate(repo=None, force_fallback=()):
+    ensure_plugins()
     repo = repo or REPO
     T, status = {}, {}
     for k, rel in FILES.items():
@@ -244,7 +252,13 @@ def write(text):
     return False
 
 
-if __name__ == '__main__':
+def main():
     text, status = generate()
     changed = write(text)
     print(json.dumps({'changed': changed, 'status': status}, indent=1, ensure_ascii=False))
+
+
+if __name__ == '__main__':
+    sys.path.insert(0, HERE)
+    import extract as _self        # run through the importable module so that plug-ins can `from extract import ...`
+    _self.main()
